@@ -3,7 +3,9 @@ package props
 import (
 	"encoding/json"
 	"fmt"
+	"math"
 	"reflect"
+	"sort"
 	"strconv"
 	"testing"
 
@@ -353,4 +355,185 @@ func blankVariant(text string) string {
 		}
 	}
 	return string(sb)
+}
+
+// TestC17_NaNKeys: "maps with any key type" includes keys that are not equal to themselves -
+// NaN in float-keyed maps, NaN inside interface, array and struct keys. Such entries can be
+// iterated but not looked up. Execute must pair every key with ITS element: the kept entries
+// are exactly the elements on which Evaluate is true (as a multiset: NaN keys cannot be told
+// apart), an erroring element gives an error, the input is unchanged, and the same call gives
+// the same answer every time (C14).
+type c17NaNCase struct {
+	KeyKind int    `json:"key_kind"` // 0 float64, 1 float32, 2 interface{}, 3 [1]float64, 4 struct{F float64}
+	Elems   string `json:"elems"`    // one letter per NaN-keyed entry: T, F, E
+	Plain   string `json:"plain"`    // entries under ordinary keys
+	Text    string `json:"text"`
+}
+
+func c17NaNMap(c *c17NaNCase) (interface{}, int) {
+	elem := func(ch byte, i int) interface{} {
+		switch ch {
+		case 'T':
+			return map[string]interface{}{"x": 1, "i": i}
+		case 'F':
+			return map[string]interface{}{"x": 0, "i": i}
+		}
+		return map[string]interface{}{"x": []interface{}{}, "i": i}
+	}
+	nan := math.NaN()
+	n := 0
+	put := func(m reflect.Value, k interface{}, v interface{}) {
+		m.SetMapIndex(reflect.ValueOf(k).Convert(m.Type().Key()), reflect.ValueOf(v))
+		n++
+	}
+	var m reflect.Value
+	et := reflect.TypeOf(map[string]interface{}{})
+	type sk struct{ F float64 }
+	switch c.KeyKind {
+	case 0:
+		m = reflect.MakeMap(reflect.MapOf(reflect.TypeOf(float64(0)), et))
+	case 1:
+		m = reflect.MakeMap(reflect.MapOf(reflect.TypeOf(float32(0)), et))
+	case 2:
+		m = reflect.MakeMap(reflect.MapOf(reflect.TypeOf((*interface{})(nil)).Elem(), et))
+	case 3:
+		m = reflect.MakeMap(reflect.MapOf(reflect.TypeOf([1]float64{}), et))
+	default:
+		m = reflect.MakeMap(reflect.MapOf(reflect.TypeOf(sk{}), et))
+	}
+	for i := range c.Elems {
+		switch c.KeyKind {
+		case 0, 2:
+			put(m, nan, elem(c.Elems[i], i))
+		case 1:
+			put(m, float32(nan), elem(c.Elems[i], i))
+		case 3:
+			put(m, [1]float64{nan}, elem(c.Elems[i], i))
+		default:
+			put(m, sk{nan}, elem(c.Elems[i], i))
+		}
+	}
+	for i := range c.Plain {
+		f := float64(i + 1)
+		switch c.KeyKind {
+		case 0, 2:
+			put(m, f, elem(c.Plain[i], 100+i))
+		case 1:
+			put(m, float32(f), elem(c.Plain[i], 100+i))
+		case 3:
+			put(m, [1]float64{f}, elem(c.Plain[i], 100+i))
+		default:
+			put(m, sk{f}, elem(c.Plain[i], 100+i))
+		}
+	}
+	return m.Interface(), n
+}
+
+func c17NaNRun(t failer, property, test string, c *c17NaNCase) {
+	f, ferr := bexpr.CreateFilter(c.Text)
+	if ferr != nil {
+		t.Fatalf("harness: %q rejected: %v", c.Text, ferr)
+	}
+	want := "kept:"
+	var keptIdx []int
+	for i, ch := range c.Elems + c.Plain {
+		idx := i
+		if i >= len(c.Elems) {
+			idx = 100 + i - len(c.Elems)
+		}
+		switch ch {
+		case 'E':
+			want = "error"
+		case 'T':
+			keptIdx = append(keptIdx, idx)
+		}
+	}
+	if want != "error" {
+		sort.Ints(keptIdx)
+		want += fmt.Sprint(keptIdx)
+	}
+	for rep := 0; rep < 60; rep++ {
+		m, n := c17NaNMap(c)
+		var out interface{}
+		var err error
+		func() {
+			defer func() {
+				if r := recover(); r != nil {
+					violation(t, property, test, c, "Filter.Execute panicked on a map with %d entries, %d of them under NaN keys (key kind %d): %v", n, len(c.Elems), c.KeyKind, r)
+				}
+			}()
+			out, err = f.Execute(m)
+		}()
+		got := "error"
+		if err == nil {
+			rv := reflect.ValueOf(out)
+			if rv.Type() != reflect.TypeOf(m) {
+				violation(t, property, test, c, "result type %T, input type %T", out, m)
+			}
+			var idx []int
+			it := rv.MapRange()
+			for it.Next() {
+				idx = append(idx, it.Value().Interface().(map[string]interface{})["i"].(int))
+			}
+			sort.Ints(idx)
+			got = "kept:" + fmt.Sprint(idx)
+		}
+		if got != want {
+			violation(t, property, test, c, "call %d: %q on a map whose entries (NaN-keyed: %s, ordinary: %s; key kind %d) evaluate to T/F/E as listed: got %s, element-wise %s", rep+1, c.Text, c.Elems, c.Plain, c.KeyKind, got, want)
+		}
+		if reflect.ValueOf(m).Len() != n {
+			violation(t, property, test, c, "Execute changed the number of entries of its input from %d to %d", n, reflect.ValueOf(m).Len())
+		}
+	}
+}
+
+func init() {
+	for _, n := range []string{"TestC17_NaNKeys", "TestC14_NaNKeys"} {
+		n := n
+		replayers[n] = func(t *testing.T, raw json.RawMessage) {
+			var c c17NaNCase
+			if err := json.Unmarshal(raw, &c); err != nil {
+				t.Fatalf("bad case: %v", err)
+			}
+			c17NaNRun(t, n[4:7], n, &c)
+			t.Logf("replay ok")
+		}
+	}
+}
+
+func TestC17_NaNKeys(t *testing.T) { nanKeysTest(t, "C17", "TestC17_NaNKeys", c17Rule) }
+
+// TestC14_NaNKeys: the same maps for the determinism property (the 60 repetitions per case).
+func TestC14_NaNKeys(t *testing.T) { nanKeysTest(t, "C14", "TestC14_NaNKeys", c14Rule) }
+
+func nanKeysTest(t *testing.T, property, test, rule string) {
+	r := rec(t, property, rule+"; TestC17_NaNKeys: maps with 0-4 entries under keys that are not equal to themselves (NaN as float64 / float32 / interface / array / struct key) next to ordinary entries, elements true / false / erroring, 60 repetitions: kept multiset = element-wise, error iff an element errors, input unchanged (exhaustive)")
+	r.Exhaustive = true
+	r.ExhaustiveOf = "key kind x {T,F,E}^(0..3) NaN-keyed entries x {T,F,E}^(0..2) ordinary entries"
+	var seqs func(alpha string, max int) []string
+	seqs = func(alpha string, max int) []string {
+		out := []string{""}
+		for l, prev := 1, []string{""}; l <= max; l++ {
+			var cur []string
+			for _, p := range prev {
+				for _, ch := range alpha {
+					cur = append(cur, p+string(ch))
+				}
+			}
+			out, prev = append(out, cur...), cur
+		}
+		return out
+	}
+	n := 0
+	for kk := 0; kk < 5; kk++ {
+		for _, el := range seqs("TFE", 3) {
+			for _, pl := range seqs("TFE", 2) {
+				c := &c17NaNCase{KeyKind: kk, Elems: el, Plain: pl, Text: "x == 1"}
+				c17NaNRun(t, property, test, c)
+				n++
+				r.Case(fmt.Sprintf("%d|%s|%s", kk, el, pl), len(el) >= 2, c, fmt.Sprintf("nan-keys:%d", len(el)), fmt.Sprintf("key-kind:%d", kk))
+			}
+		}
+	}
+	t.Logf("cases: %d", n)
 }
